@@ -10,7 +10,9 @@ import traceback
 
 VERIF = os.path.dirname(os.path.dirname(os.path.abspath(__file__)))
 REPO = os.environ.get("IXAI_REPO", "/repo")
-EVID = os.path.join(VERIF, "evidence")
+# evidence/ only ever describes runs against /repo itself; runs against a scratch worktree (IXAI_REPO, used to evaluate
+# seeded changes) write their evidence next to the other scratch output
+EVID = os.path.join(VERIF, "evidence") if os.path.realpath(REPO) == os.path.realpath("/repo") else os.path.join(VERIF, ".work", "evidence-scratch")
 REPLAYS = os.path.join(VERIF, "replays")
 MAX_REPLAY_FILES = 40
 KNOWN = os.path.join(VERIF, "known_findings.json")
